@@ -68,6 +68,13 @@ def JR2(inp, n, m):
     _, exc = guard(getattr(o, so.P + 'onMessageReceived'), Node('b'), msg)
     cl = {'no_exception': exc is None}
     mem_log = so.log_of(o)
+    # what the once-per-second flush would persist now: never more than the node's own (verified) commit index
+    get(o, 'raftLog').onOneSecondTimer()
+    fs.recording = False
+    j3, e3 = guard(J.FileJournal, 'jf')
+    fs.recording = True
+    if e3 is None:
+        cl['persisted_commit_index_is_the_nodes_own'] = And(Eq(j3.getRaftCommitIndex(), o.raftCommitIndex), j3.getRaftCommitIndex() <= mem_log[-1][1])
     for (idx, files) in tr.at_ack:
         saved = fs.files
         fs.files, fs.recording = dict(files), False
